@@ -25,6 +25,13 @@ theorem clamp_trichotomy {γ : Type} [LT γ] [DecidableLT γ] (lo hi x : γ) :
     · right; left; simp [h1, h3]
     · left; simp [h1, h3]
 
+theorem bind_ok {ε γ β : Type} (x : Except ε γ) (f : γ → Except ε β) (b : β) :
+    (x >>= f) = .ok b ↔ ∃ a, x = .ok a ∧ f a = .ok b := by
+  cases x <;> simp [bind, Except.bind]
+
+theorem pure_ok {ε γ : Type} (a b : γ) : (pure a : Except ε γ) = .ok b ↔ a = b := by
+  simp [pure, Except.pure]
+
 theorem getD_map_range {γ : Type} (f : Nat → γ) (n i : Nat) (h : i < n) (d : γ) :
     ((List.range n).map f).getD i d = f i := by
   simp [List.getD_eq_getElem?_getD, h]
@@ -194,32 +201,72 @@ theorem argminFirst_fold {κ : Type} (cs : List (κ × α)) (c : κ × α) :
           · simp at hx; rw [hx]; exact not_lt.mp hy)
       simpa using this
 
-/-- `argminFirst` returns the first entry of minimal cost. -/
-theorem argminFirst_spec {κ : Type} (cs : List (κ × α)) (b : κ × α) (h : argminFirst cs = some b) :
-    ∃ l1 l2, cs = l1 ++ b :: l2 ∧ (∀ x ∈ l1, b.2 < x.2) ∧ (∀ x ∈ l2, b.2 ≤ x.2) := by
-  cases cs with
-  | nil => simp [argminFirst] at h
-  | cons c cs =>
-    simp only [argminFirst, Option.some.injEq] at h
-    subst h
-    exact argminFirst_fold cs c
+theorem argminFrom_some {κ : Type} (ltInf : α → Bool) (cs : List (κ × α)) (b : κ × α) :
+    argminFrom ltInf cs (some b) = some (cs.foldl (fun best x => if x.2 < best.2 then x else best) b) := by
+  unfold argminFrom
+  induction cs generalizing b with
+  | nil => rfl
+  | cons x xs ih =>
+    simp only [List.foldl_cons]
+    by_cases hx : x.2 < b.2
+    · simp only [hx, ↓reduceIte]; exact ih x
+    · simp only [hx, ↓reduceIte]; exact ih b
 
-theorem costTable_spec (f : α → Option α) (ks : List α) (r : List (α × α)) (h : costTable f ks = some r) :
-    r.map Prod.fst = ks ∧ ∀ x ∈ r, f x.1 = some x.2 := by
+/-- when every cost is below `inf` (always so in a field), the selection loop returns the first entry of minimal
+    cost, and it returns one as soon as the table is not empty. -/
+theorem argminFrom_spec {κ : Type} (ltInf : α → Bool) (hlt : ∀ x, ltInf x = true) (cs : List (κ × α)) :
+    (cs = [] ∧ argminFrom ltInf cs none = none) ∨
+    ∃ b l1 l2, argminFrom ltInf cs none = some b ∧ cs = l1 ++ b :: l2 ∧ (∀ x ∈ l1, b.2 < x.2) ∧ (∀ x ∈ l2, b.2 ≤ x.2) := by
+  cases cs with
+  | nil => left; exact ⟨rfl, rfl⟩
+  | cons c cs =>
+    right
+    have h1 : argminFrom ltInf (c :: cs) none = argminFrom ltInf cs (some c) := by
+      simp [argminFrom, hlt]
+    obtain ⟨l1, l2, e, m1, m2⟩ := argminFirst_fold cs c
+    exact ⟨_, l1, l2, by rw [h1, argminFrom_some], e, m1, m2⟩
+
+theorem costTable_spec (f : α → Except FErr α) (ks : List α) (r : List (α × α)) (h : costTable f ks = .ok r) :
+    r.map Prod.fst = ks ∧ ∀ x ∈ r, f x.1 = .ok x.2 := by
   induction ks generalizing r with
-  | nil => simp [costTable] at h; subst h; simp
+  | nil => simp only [costTable, Except.ok.injEq] at h; subst h; simp
   | cons kp ks ih =>
-    simp only [costTable] at h
-    split at h
-    · rename_i c r' hc hr
-      simp only [Option.some.injEq] at h
-      subst h
-      obtain ⟨h1, h2⟩ := ih r' hr
-      refine ⟨by simp [h1], ?_⟩
-      intro x hx
-      rcases List.mem_cons.mp hx with hx | hx
-      · rw [hx]; exact hc
-      · exact h2 x hx
-    · simp at h
+    simp only [costTable, bind_ok] at h
+    obtain ⟨c, hc, r', hr, h⟩ := h
+    rw [pure_ok] at h; subst h
+    obtain ⟨h1, h2⟩ := ih r' hr
+    refine ⟨by simp [h1], ?_⟩
+    intro x hx
+    rcases List.mem_cons.mp hx with hx | hx
+    · rw [hx]; exact hc
+    · exact h2 x hx
+
+/-! ### when the layout returns -/
+
+theorem isZeroF_iff (x : α) : isZeroF x = true ↔ x = 0 := by
+  simp only [isZeroF, zero_eq, Bool.and_eq_true, decide_eq_true_eq]
+  exact ⟨fun ⟨a, b⟩ => le_antisymm a b, fun h => by simp [h]⟩
+
+theorem frPositions_ok {β : Type} (o : Ops α) (inst : Inst α β) (kappa : α) (maxIter : Nat) (pos : List (Pt α))
+    (h : frPositions o inst kappa maxIter = .ok pos) :
+    ∃ k, springK o inst kappa = .ok k ∧ attractionRaises k maxIter inst.nets = false ∧
+      pos = frLoop o inst k (tempStep inst maxIter) maxIter (temp0 inst) (initPos inst) := by
+  unfold frPositions at h
+  rw [bind_ok] at h
+  obtain ⟨k, hk, h⟩ := h
+  split at h
+  · simp at h
+  · rename_i hr
+    rw [pure_ok] at h
+    exact ⟨k, hk, by simpa using hr, h.symm⟩
+
+theorem frLayout_ok {β : Type} (o : Ops α) (inst : Inst α β) (kappa : α) (maxIter : Nat) (out : Inst α β)
+    (h : frLayout o inst kappa maxIter = .ok out) :
+    ∃ pos, frPositions o inst kappa maxIter = .ok pos ∧ out = writeCentres inst pos := by
+  unfold frLayout at h
+  rw [bind_ok] at h
+  obtain ⟨pos, hp, h⟩ := h
+  rw [pure_ok] at h
+  exact ⟨pos, hp, h.symm⟩
 
 end FV.Force
